@@ -119,29 +119,50 @@ def refusal(repo, res):
     r2 = res.rule("C08-R2", "every multiplicative / power unit rule reaches an offset refusal (InvalidUnitOperation) before building a unit", floor=9)
     uo = repo.mod(UO)
     arr = repo.mod(ARR)
+    # Unit * Unit and Unit / Unit: decision table over abstract units (folded tests, helpers followed): a unit with an
+    # offset may be multiplied / divided only by a dimensionless partner (the offset then survives) - every other
+    # combination raises InvalidUnitOperation; units without offsets never raise for that reason.
+    from engine.dtable import Rec, Tok, decide
+
+    t_ = Tables(repo)
+    TEMP, recs, other = _temperature_universe(t_)
+    ANG, LOGD, ONE_D = Tok("angle"), Tok("logarithmic"), Tok("dimensionless")
+    glob = {"temperature": TEMP, "angle": ANG, "logarithmic": LOGD}
+
+    def unit(name, dims, off, dimless=False, scale=1.0):
+        return Rec(name, base_value=scale, base_offset=off, dimensions=dims, expr=name, is_Unit=True, is_dimensionless=dimless, registry=Tok("registry"), __classes__=("Unit",))
+
+    byname = {r.name: r for r in recs}
+    U = {
+        "degC": unit("degC", TEMP, -273.15), "degF": unit("degF", TEMP, -459.67, scale=5 / 9), "K": unit("K", TEMP, 0.0), "delta_degC": unit("delta_degC", TEMP, 0.0),
+        "lat": unit("lat", ANG, 90.0), "rad": unit("radian", ANG, 0.0), "m": unit("m", Tok("length"), 0.0), "one": unit("dimensionless", ONE_D, 0.0, dimless=True), "percent": unit("percent", ONE_D, 0.0, dimless=True, scale=0.01),
+    }
     guarded = {}
-    for dunder, op in (("__mul__", ast.Mult), ("__truediv__", ast.Div), ("__pow__", ast.Pow)):
+    for dunder, op in (("__mul__", ast.Mult), ("__truediv__", ast.Div)):
         fn = uo.func(f"Unit.{dunder}")
         res.fn(fn)
-        ok, why = _offset_guarded(fn)
-        guarded[op] = ok
-        if dunder == "__pow__":
-            # Unit.__pow__ is only a callee here: the property speaks about quantities, and the
-            # library itself raises offset *units* to powers when cancelling compound units
-            # (J/degC); a rule using ** must therefore refuse by itself (checked below).
-            continue
-        res.check(ok, f"Unit.{dunder}", fn.where(), f"Unit.{dunder} builds a unit from an offset unit without refusing: {why}", "test of base_offset with raise InvalidUnitOperation on all unit-building paths", why, rid=r2)
-    # the offset kept by __mul__/__truediv__ only for a dimensionless partner
-    for dunder in ("__mul__", "__truediv__"):
-        fn = uo.func(f"Unit.{dunder}")
-        ok = True
-        for p in enum_paths(fn.body):
-            if p[-1][0] != "return" or not (isinstance(p[-1][1].value, ast.Call) and norm(p[-1][1].value.func) == "Unit"):
-                continue
-            fm = dict((t, tr) for t, tr, _ in path_facts(p))
-            if fm.get("self.base_offset or u.base_offset") is True:
-                ok &= any("is_dimensionless" in t and tr for t, tr in fm.items())
-        res.check(ok, f"Unit.{dunder}:allowance", fn.where(), "an offset may survive multiplication/division only when the other factor is dimensionless", rid=r2)
+        bad = []
+        n = 0
+        for an, a_ in U.items():
+            for bn, b_ in U.items():
+                out = decide(uo, fn, [a_, b_], glob)
+                n += 1
+                has_off = a_.attrs["base_offset"] != 0.0 or b_.attrs["base_offset"] != 0.0
+                if dunder == "__mul__":
+                    allowed = (a_.attrs["base_offset"] != 0.0 and b_.attrs["is_dimensionless"]) or (b_.attrs["base_offset"] != 0.0 and a_.attrs["is_dimensionless"])
+                else:
+                    allowed = a_.attrs["base_offset"] != 0.0 and b_.attrs["is_dimensionless"] and b_.attrs["base_offset"] == 0.0
+                refused = out.kind == "raise" and out.value == "InvalidUnitOperation"
+                if has_off and not allowed and not refused:
+                    bad.append(f"{an} {'*' if op is ast.Mult else '/'} {bn} returns a unit")
+                if not has_off and refused:
+                    bad.append(f"{an} {'*' if op is ast.Mult else '/'} {bn} is refused")
+        guarded[op] = not bad
+        res.check(not bad, f"Unit.{dunder}", fn.where(), f"Unit.{dunder} decision table over {n} unit pairs: an offset unit (Celsius, Fahrenheit, lat/lon) may only be combined with a dimensionless partner, everything else must raise InvalidUnitOperation" + (f" - {bad[0]}" if bad else ""), "refusal", bad[:4], rid=r2)
+        res.check(not [x for x in bad if "returns" in x], f"Unit.{dunder}:allowance", fn.where(), "an offset may survive multiplication/division only when the other factor is dimensionless", found=bad[:3], rid=r2)
+    fnp = uo.func("Unit.__pow__")
+    res.fn(fnp)
+    guarded[ast.Pow] = _offset_guarded(fnp)[0]
     reg = registry(repo)
     rules = {}
     for name, (rule, gate) in reg.items():
